@@ -49,7 +49,7 @@ def ops17(alive, wakers=2):
 def track17(alive, t):
     if t[0] == "a":
         return alive + (True,)
-    if t[0] == "d":
+    if t[0] in "du":
         i = int(t[1:])
         return tuple(False if j == i else b for j, b in enumerate(alive))
     return alive
@@ -98,10 +98,12 @@ def random_case(rng):
             ops = ops17(alive, wakers=3)
             weights = [wa if t[0] == "a" else (wd / max(1, live)) if t[0] == "d" else 0.9 if t[0] == "v" else 0.3 for t in ops]
             t = rng.choices(ops, weights)[0]
+        if t[0] == "d" and rng.random() < 0.25:
+            t = "u" + t[1:]     # the same drop, performed while the thread unwinds from a panic
         seq.append(t)
         if t == "k":
             clones += 1
-        if t[0] != "d" or (int(t[1:]) < len(alive) and alive[int(t[1:])]):
+        if t[0] not in "du" or (int(t[1:]) < len(alive) and alive[int(t[1:])]):
             alive = track17(alive, t)
     return "%d|%s" % (cap, " ".join(seq))
 
@@ -133,7 +135,7 @@ def to_coq17(case, model):
     cap, ops = case.split("|", 1)
 
     def op(t):
-        return {"a": "Acquire", "k": "Clone", "h": "DropClone"}.get(t[0]) or {"d": "DropGuard", "v": "Available"}[t[0]] + " " + t[1:]
+        return {"a": "Acquire", "k": "Clone", "h": "DropClone"}.get(t[0]) or {"d": "DropGuard", "u": "DropGuard", "v": "Available"}[t[0]] + " " + t[1:]
 
     def ob(t):
         a, tot = t.split("/")
